@@ -185,6 +185,7 @@ def exmod(
     make_sqlalchemy_mod: bool = (
         emit_name in frozenset(("sqlalchemy", "sqlalchemy_hybrid", "sqlalchemy_table"))
         and emit_sqlalchemy_submodule
+        and not dry_run
         and not path.isdir(sqlalchemy_mod_dir)
     )
     if make_sqlalchemy_mod:
